@@ -182,11 +182,13 @@ def forger_family(run, h, pts, batch, rng, M, cid, cb, mb, ctx):
     agreed = (cid_scalar(cid), cb, mb)
     nonce, lock = rand_nz(rng), rand_nz(rng)
     variants = hidden_variants(rng, agreed, nonce, lock)
-    if run.tier == "quick":
-        variants = variants[:5] + rng.sample(variants[5:], 5)
     strategies = ["a_honest_algorithm", "c_independent_scalar", "d_solve_revealed_scalars", "d_solve_T"]
     for name, ms, mc in variants:
         for strat in strategies:
+            # quick: every variant with the per-relation strategy (each verifier equation violated alone) and with the
+            # post-challenge choice of the revealed scalars; the other strategies on a sample
+            if run.tier == "quick" and strat in ("a_honest_algorithm", "d_solve_T") and rng.random() < 0.6:
+                continue
             attempt(run, h, pts, batch, rng, M, cid, cb, mb, ctx, agreed, name, ms, mc, strat)
 
 
